@@ -166,6 +166,10 @@ pub struct ProcSpec {
     /// record read-side events too
     #[serde(default)]
     pub trace_reads: bool,
+    /// mutating calls on paths outside this directory are refused (EACCES) and traced with
+    /// fault "jail": a simulated process must not be able to damage anything but its world
+    #[serde(default)]
+    pub jail: Option<String>,
 }
 
 impl ProcSpec {
@@ -177,6 +181,7 @@ impl ProcSpec {
             chunk_seed: None,
             faults: vec![],
             trace_reads: false,
+            jail: None,
         }
     }
 }
@@ -267,6 +272,27 @@ impl SimCtx {
             busy: false,
             spec,
         })
+    }
+    #[allow(clippy::too_many_arguments)]
+    fn push_jail(&mut self, op: Op, m: Option<u32>, r: Option<u32>, path: String, path2: String, flags: i32, existed: bool) {
+        let seq = self.seq;
+        self.seq += 1;
+        self.fired.push(("jail".to_string(), format!("{}:{}", op.name(), path)));
+        self.trace.push(Event {
+            seq,
+            mseq: m,
+            rseq: r,
+            op,
+            path,
+            path2,
+            flags,
+            len: 0,
+            ret: -1,
+            errno: libc::EACCES,
+            fault: Some("jail".to_string()),
+            existed,
+            frozen: false,
+        });
     }
     fn count(&mut self, sym: &'static str) {
         *self.counts.entry(sym).or_insert(0) += 1;
@@ -587,6 +613,13 @@ unsafe fn resolve(dirfd: c_int, path: *const c_char, follow_last: bool) -> Strin
     }
 }
 
+fn jailed(c: &SimCtx, path: &str) -> bool {
+    match &c.spec.jail {
+        Some(j) => !(path == j || path.starts_with(&format!("{}/", j))),
+        None => false,
+    }
+}
+
 const WRITE_FLAGS: c_int = libc::O_WRONLY | libc::O_RDWR | libc::O_CREAT | libc::O_TRUNC | libc::O_APPEND;
 
 // ---------------------------------------------------------------------------
@@ -609,6 +642,11 @@ unsafe fn do_open(c: &mut SimCtx, dirfd: c_int, path: *const c_char, flags: c_in
     let op = if writing { Op::OpenW } else { Op::OpenR };
     let existed = lexists(&rp);
     let (m, r, fault) = c.fault_for(op, &rp);
+    if writing && !c.frozen && jailed(c, &rp) {
+        c.push_jail(op, m, r, rp, String::new(), flags, existed);
+        set_errno(libc::EACCES);
+        return -1;
+    }
     if c.frozen {
         let fd = if writing {
             real_openat(libc::AT_FDCWD, b"/dev/null\0".as_ptr() as *const c_char, libc::O_WRONLY | libc::O_CLOEXEC, 0)
@@ -872,6 +910,11 @@ unsafe fn do_simple(
     let rp = resolve(dirfd, path, false);
     let existed = lexists(&rp);
     let (m, r, fault) = c.fault_for(op, &rp);
+    if !c.frozen && jailed(c, &rp) && !(op == Op::Mkdir && existed) {
+        c.push_jail(op, m, r, rp, String::new(), flags, existed);
+        set_errno(libc::EACCES);
+        return -1;
+    }
     if c.frozen {
         c.push(op, m, r, rp, String::new(), flags, len, 0, 0, None, existed, true);
         return 0;
@@ -931,6 +974,11 @@ unsafe fn do_two(
     let existed2 = lexists(&secondary);
     let (m, r, fault) = c.fault_for(op, &primary);
     let flags = existed2 as i32;
+    if !c.frozen && (jailed(c, &primary) || (op != Op::Symlink && jailed(c, &secondary))) {
+        c.push_jail(op, m, r, primary, secondary, flags, existed);
+        set_errno(libc::EACCES);
+        return -1;
+    }
     if c.frozen {
         c.push(op, m, r, primary, secondary, flags, 0, 0, 0, None, existed, true);
         return 0;
